@@ -36,6 +36,17 @@ STD2 = {"fund": ["0", "1"], "gap": "-", "missing": "?", "amb": [{"sym": "a", "me
 STD4 = {"fund": ["p", "q", "r", "s"], "gap": "-", "missing": "?",
         "amb": [{"sym": "x", "mem": ["p", "q"]}, {"sym": "y", "mem": ["q", "r", "s"]}, {"sym": "z", "mem": ["p", "s"]},
                 {"sym": "{pq}", "mem": ["p", "q"]}, {"sym": "{rs}", "mem": ["r", "s"]}, {"sym": "{qs}", "mem": ["q", "s"]}]}
+# "kind": "poly" = a POLYMORPHIC multistate code (NEXUS "(01)"); like an ambiguity code it is a state set
+STD3P = {"fund": ["0", "1", "2"], "gap": "-", "missing": "?",
+         "amb": [{"sym": "e", "mem": ["0", "1"], "kind": "poly"}, {"sym": "f", "mem": ["0", "2"], "kind": "poly"},
+                 {"sym": "h", "mem": ["1", "2"], "kind": "poly"}, {"sym": "(012)", "mem": ["0", "1", "2"], "kind": "poly"},
+                 {"sym": "a", "mem": ["0", "1"]}, {"sym": "(01)", "mem": ["0", "1"], "kind": "poly"}]}
+STD3P_SYM = {frozenset([0]): "0", frozenset([1]): "1", frozenset([2]): "2", frozenset([0, 1]): "e",
+             frozenset([0, 2]): "f", frozenset([1, 2]): "h", frozenset([0, 1, 2]): "(012)",
+             frozenset([3]): "-", frozenset([0, 1, 2, 3]): "?"}
+DNA_POLY = [{"sym": "(AC)", "mem": ["A", "C"], "kind": "poly"}, {"sym": "(AGT)", "mem": ["A", "G", "T"], "kind": "poly"},
+            {"sym": "(GT)", "mem": ["G", "T"], "kind": "poly"}]
+_DNA_POLY_STATES = {}
 STD3A = {"fund": ["0", "1", "2"], "gap": "-", "missing": "?",
          "amb": [{"sym": "a", "mem": ["0", "1"]}, {"sym": "{01}", "mem": ["0", "1"]}, {"sym": "{12}", "mem": ["1", "2"]},
                  {"sym": "{02}", "mem": ["0", "2"]}]}
@@ -54,20 +65,33 @@ def dna_embed(cell, sigma):
     return DNA_CODE["".join(sorted(sigma[i] for i in cell))]
 
 
+def _anonymous(sym):
+    return sym.startswith("{") or sym.startswith("(")
+
+
 def make_matrix(dendropy, spec, ns, taxa):
     """spec: {"type", "rows": [[symbol,...] per taxon code-1], + alphabet definition for standard};
     returns (matrix, {id(anonymous state): its name in the log})"""
+    nrows = len(spec["rows"])
     if spec["type"] == "dna":
-        d = dict((t.label, list(spec["rows"][k])) for k, t in enumerate(taxa[:len(spec["rows"])]))
-        return dendropy.DnaCharacterMatrix.from_dict(d, taxon_namespace=ns), {}
+        anon = {}
+        for a in spec.get("amb", []):              # polymorphic multistate codes on the DNA alphabet (as "(AC)" in NEXUS)
+            st = _DNA_POLY_STATES.get(a["sym"])
+            if st is None:
+                st = dendropy.DNA_STATE_ALPHABET.new_polymorphic_state(None, member_state_symbols="".join(a["mem"]))
+                _DNA_POLY_STATES[a["sym"]] = st
+            anon[a["sym"]] = st
+        d = dict((t.label, [anon.get(x, x) for x in spec["rows"][k]]) for k, t in enumerate(taxa[:nrows]))
+        return dendropy.DnaCharacterMatrix.from_dict(d, taxon_namespace=ns), dict((id(st), n) for n, st in anon.items())
     sa = dendropy.new_standard_state_alphabet("".join(spec["fund"]))
     anon = {}
     for a in spec["amb"]:
-        if a["sym"].startswith("{"):
-            anon[a["sym"]] = sa.new_ambiguous_state(None, member_state_symbols="".join(a["mem"]))
+        new = sa.new_polymorphic_state if a.get("kind") == "poly" else sa.new_ambiguous_state
+        if _anonymous(a["sym"]):
+            anon[a["sym"]] = new(None, member_state_symbols="".join(a["mem"]))
         else:
-            sa.new_ambiguous_state(a["sym"], member_state_symbols="".join(a["mem"]))
-    d = dict((t.label, [anon.get(x, x) for x in spec["rows"][k]]) for k, t in enumerate(taxa[:len(spec["rows"])]))
+            new(a["sym"], member_state_symbols="".join(a["mem"]))
+    d = dict((t.label, [anon.get(x, x) for x in spec["rows"][k]]) for k, t in enumerate(taxa[:nrows]))
     m = dendropy.StandardCharacterMatrix.from_dict(d, taxon_namespace=ns, default_state_alphabet=sa)
     return m, dict((id(st), name) for name, st in anon.items())
 
@@ -79,7 +103,8 @@ def project_matrix(m, spec, taxa, anon_names=None):
     for t in taxa[:len(spec["rows"])]:
         rows.append([(c.symbol if isinstance(c.symbol, str) else anon_names.get(id(c), "<%r>" % (c.symbol,))) for c in m[t]])
     if spec["type"] == "dna":
-        return {"type": "dna", "fund": [], "gap": "-", "missing": "?", "amb": [], "rows": rows}
+        return {"type": "dna", "fund": [], "gap": "-", "missing": "?",
+                "amb": [{"sym": a["sym"], "mem": list(a["mem"])} for a in spec.get("amb", [])], "rows": rows}
     return {"type": "standard", "fund": list(spec["fund"]), "gap": spec["gap"], "missing": spec["missing"],
             "amb": [{"sym": a["sym"], "mem": list(a["mem"])} for a in spec["amb"]], "rows": rows}
 
@@ -267,7 +292,7 @@ def run_table(case):
             rows[perm[i]] = spec0["leafrows"][i]       # row of the taxon sitting on leaf i
         for i in range(nl, ntax):
             cells = [rng.choice(CELLS9) for _ in range(nchar)]
-            rows[perm[i]] = ([STD3_SYM[c] for c in cells] if spec0["type"] == "standard"
+            rows[perm[i]] = ([(STD3P_SYM if spec0.get("poly") else STD3_SYM)[c] for c in cells] if spec0["type"] == "standard"
                              else [dna_embed(c, spec0["sigma"]) for c in cells])
         spec = dict(spec0, rows=rows)
         m, anon = make_matrix(dendropy, spec, ns, taxa)
@@ -294,6 +319,9 @@ def model_matrix_spec(rows_cells, kind, sigma=None):
     if kind == "standard":
         d = dict(STD3, type="standard")
         d["leafrows"] = [[STD3_SYM[frozenset(c)] for c in row] for row in rows_cells]
+    elif kind == "standard_poly":                       # every multistate cell as a POLYMORPHIC code
+        d = dict(STD3P, type="standard", poly=True)
+        d["leafrows"] = [[STD3P_SYM[frozenset(c)] for c in row] for row in rows_cells]
     else:
         d = {"type": "dna", "sigma": list(sigma), "leafrows": [[dna_embed(frozenset(c), sigma) for c in row] for row in rows_cells]}
     return d
@@ -339,7 +367,8 @@ def run_path(case):
 def column_pool(rng, spec, smax, allow_gap):
     """symbols a column may use so that at most `smax` distinct states (gap included) can occur in it"""
     fund = list(spec["fund"]) if spec["type"] != "dna" else list("ACGT")
-    amb = spec["amb"] if spec["type"] != "dna" else [{"sym": c, "mem": list(k)} for k, c in DNA_CODE.items() if len(k) > 1]
+    amb = spec["amb"] if spec["type"] != "dna" else ([{"sym": c, "mem": list(k)} for k, c in DNA_CODE.items() if len(k) > 1]
+                                                      + spec.get("amb", []))
     if len(fund) + 1 <= smax:
         syms = fund + [a["sym"] for a in amb] + (["-", "?"] if allow_gap else [])
         return syms
@@ -351,10 +380,10 @@ def column_pool(rng, spec, smax, allow_gap):
 
 def random_matrix(rng, nl, nchar, kind, smax):
     if kind == "dna":
-        spec = {"type": "dna"}
+        spec = {"type": "dna", "amb": rng.sample(DNA_POLY, rng.randint(1, 2)) if rng.random() < 0.35 else []}
     else:
-        spec = dict(rng.choice([STD2, STD3, STD3A, STD4]) if smax >= 5 else (STD2 if smax <= 3 else rng.choice([STD2, STD3, STD3A])),
-                    type="standard")
+        spec = dict(rng.choice([STD2, STD3, STD3A, STD3P, STD4]) if smax >= 5
+                    else (STD2 if smax <= 3 else rng.choice([STD2, STD3, STD3A, STD3P])), type="standard")
     cols = []
     for j in range(nchar):
         pool = column_pool(rng, spec, smax, True)
@@ -485,6 +514,123 @@ def run_random_table(case):
     return [{"action": "Table", "g": g, "m": pm, "calls": calls}]
 
 
+def project_map(tmap, taxa):
+    return [[sorted(int(x) for x in ss) for ss in tmap[t]] for t in taxa]
+
+
+def nested_from_graph(g, code_to_index):
+    def rec(x):
+        return [None, code_to_index(g["tx"][x - 1]) if not g["kids"][x - 1] else None, None, [rec(c) for c in g["kids"][x - 1]]]
+    return rec(g["seed"])
+
+
+class PassWorld(object):
+    """ONE taxon_state_sets_map per gap treatment, built once from the matrix and handed to fitch_down_pass /
+    fitch_up_pass on several tree objects (the documented 'build the map once, score many trees' pattern)"""
+
+    def __init__(self, dendropy, ntax, spec, attr):
+        self.d = dendropy
+        self.ns, self.taxa = build.make_namespace(dendropy, ntax)
+        self.m, anon = make_matrix(dendropy, spec, self.ns, self.taxa)
+        self.pm = project_matrix(self.m, spec, self.taxa, anon)
+        self.rowtaxa = self.taxa[:len(spec["rows"])]
+        self.attr = attr
+        self.maps = {}
+        self.trees = {}
+        self.downed = set()
+
+    def tmap(self, gm):
+        if gm not in self.maps:
+            self.maps[gm] = self.m.taxon_state_sets_map(gaps_as_missing=gm)
+        return self.maps[gm]
+
+    def tree(self, key, nested):
+        if key not in self.trees:
+            self.trees[key] = build.build_tree(self.d, nested, self.ns, self.taxa, rooted=True)
+        return self.trees[key]
+
+    def call(self, kind, key, nested, gm, w=(), bylist=False):
+        from dendropy.model import parsimony
+        tree = self.tree(key, nested)
+        tmap = self.tmap(gm)
+        pre = project_map(tmap, self.rowtaxa)
+        lst = [] if bylist else None
+        s, raised = -1, ""
+        try:
+            if kind == "down_pass":
+                s = parsimony.fitch_down_pass(tree.postorder_node_iter(), state_sets_attr_name=(self.attr or None),
+                                              taxon_state_sets_map=tmap, weights=(list(w) if w else None),
+                                              score_by_character_list=lst)
+                self.downed.add((key, gm))
+            else:
+                parsimony.fitch_up_pass(tree.preorder_node_iter(), state_sets_attr_name=self.attr, taxon_state_sets_map=tmap)
+                s = 0
+        except Exception as ex:
+            s, raised = -1, type(ex).__name__
+        if not isinstance(s, int) or isinstance(s, bool):
+            s, raised = -1, raised or ("returned:" + type(s).__name__)
+        by = [int(x) if isinstance(x, int) and not isinstance(x, bool) else -1 for x in lst] if (lst is not None and raised == "") else []
+        return {"action": "Pass", "kind": kind, "g": proj.tree_graph(tree, labels=False), "m": self.pm, "gm": bool(gm),
+                "mp_pre": pre, "mp_post": project_map(tmap, self.rowtaxa), "w": list(w or []), "bylist": bool(bylist),
+                "score": int(s), "bychar": by, "raised": raised, "attr": self.attr, "api": "fitch_" + kind}
+
+
+def run_ppath(case):
+    """a behaviour of MC_Fitch/SpecP (DownPassOn / UpPass with ONE shared map) on real trees"""
+    import dendropy
+    rows = case["rows"]
+    spec = model_matrix_spec(rows, "standard")
+    spec["rows"] = spec["leafrows"]
+    w = PassWorld(dendropy, len(rows), spec, "state_sets")
+    evs, cur = [], None
+    for name, args, g in case["path"]:
+        if name == "DownPassOn":
+            cur = (args[0], nested_from_graph(g, lambda c: c - 1))
+            evs.append(w.call("down_pass", cur[0], cur[1], case["gm"], list(args[1]), (len(evs) + case["seed"]) % 3 != 0))
+        elif name == "UpPass":
+            evs.append(w.call("up_pass", cur[0], cur[1], case["gm"]))
+        else:
+            raise core.MachineryError("unknown model action %s" % name)
+    return evs
+
+
+def run_passes(case):
+    """seeded random use of the pass functions: one matrix, one shared map per gap treatment, 2-3 tree objects of
+    different topology on (subsets of) its taxa, down and up passes in sequence"""
+    import dendropy
+    rng = random.Random(case["seed"])
+    nl = case["nleaves"]
+    ntax = nl + rng.choice([0, 0, 1])
+    spec = random_matrix(rng, ntax, rng.randint(1, 3), "dna" if (nl <= 7 and rng.random() < 0.5) else "standard", SMAX[nl - 1])
+    attr = rng.choice(["state_sets", "state_sets", "fitch_sets", ""])
+    w = PassWorld(dendropy, ntax, spec, attr)
+    nested = []
+    for i in range(rng.randint(2, 3)):
+        tix = list(range(ntax))
+        rng.shuffle(tix)
+        nd = build.assign(build.random_parents(rng, nl, p_poly=0.0, p_unif=0.0), rng, tix[:nl], len_none_all=True)
+        if rng.random() < 0.2:
+            collapse_root_child(nd, rng)
+        nested.append(nd)
+    nchar = len(spec["rows"][0])
+    evs = []
+    gm = rng.random() < 0.5
+    for _ in range(case["nops"]):
+        if rng.random() < 0.15:
+            gm = not gm
+        k = rng.randrange(len(nested))
+        if attr and (k, gm) in w.downed and rng.random() < 0.45:
+            evs.append(w.call("up_pass", k, nested[k], gm))
+            w.downed.discard((k, gm))                  # an up pass is documented to follow a down pass
+        else:
+            wt = [] if rng.random() < 0.5 else [rng.randint(0, 3) for _ in range(nchar)]
+            evs.append(w.call("down_pass", k, nested[k], gm, wt, rng.random() < 0.6))
+            for kk in list(w.downed):                  # node lists of the other gap treatment are overwritten
+                if kk[0] == k and kk[1] != gm:
+                    w.downed.discard(kk)
+    return evs
+
+
 def run_case(case):
     k = case["kind"]
     if k == "table":
@@ -495,6 +641,10 @@ def run_case(case):
         return run_random(case)
     if k == "random_table":
         return run_random_table(case)
+    if k == "ppath":
+        return run_ppath(case)
+    if k == "passes":
+        return run_passes(case)
     raise core.MachineryError("unknown case kind %r" % (k,))
 
 
@@ -564,6 +714,8 @@ def table_cases(ctx, cfg):
         mats = [model_matrix_spec(mat, "standard")]
         if k % (6 if ctx.quick else 2) == 0:
             mats.append(model_matrix_spec(mat, "dna", rng.choice(DNA_PERMS)))
+        if k % (4 if ctx.quick else 2) == 1 and any(1 < len(c) < 4 for row in mat for c in row):
+            mats.append(model_matrix_spec(mat, "standard_poly"))
         cases.append({"kind": "table", "seed": ctx.seed * 7919 + k, "par": list(par), "mats": mats,
                       "weights": weight_vectors(nc, (0, 1, 2)), "extra": k % 3, "tri": True})
     os.remove(dump)
@@ -587,6 +739,33 @@ def path_cases(ctx, cfg, deep_fraction):
             continue
         cases.append({"kind": "path", "seed": k, "par": list(states[root[u]]["g"]["par"]),
                       "path": [[n, _plain(a)] for (n, a) in paths[u] + [(name, args)]]})
+    return cases, len(edges)
+
+
+def ppath_cases(ctx, cfg, deep_fraction):
+    """one real execution per transition of the dumped SpecP graph (pass functions with one shared map)"""
+    dot = os.path.join(ctx.work, "fitch_p.dot")
+    ctx.model("MC_Fitch", cfg, extra=("-dump", "dot,actionlabels", dot), heap="3g")
+    inits, edges, states = tlaval.read_dot(dot, with_states="all")
+    os.remove(dot)
+    paths, root = tlaval.shortest_paths(inits, edges)
+    succ = {}
+    for (u, v, name, args) in edges:
+        succ[(u, name, repr(args))] = v
+    rng = random.Random(ctx.seed + 1617)
+    cases = []
+    for k, (u, v, name, args) in enumerate(edges):
+        if u not in paths:
+            continue
+        if len(paths[u]) > 1 and rng.randrange(deep_fraction) != 0:
+            continue
+        steps, node = [], root[u]
+        for (n, a) in paths[u] + [(name, args)]:
+            node = succ[(node, n, repr(a))]
+            gg = states[node]["g"]                      # the tree the step scored / finalised
+            steps.append([n, _plain(a), {"seed": gg["seed"], "kids": _plain(gg["kids"]), "tx": _plain(gg["tx"])}])
+        st0 = states[root[u]]
+        cases.append({"kind": "ppath", "seed": k, "rows": _plain(st0["mat"]["orig"]), "gm": bool(st0["mat"]["gm"]), "path": steps})
     return cases, len(edges)
 
 
@@ -657,6 +836,9 @@ def run(ctx):
     # 2. TLC: the purity state machine; as shipped, TLC must find the two-call counterexample
     ctx.model("MC_Fitch", "AsShipped_Fitch.cfg", expect_violation="PureScore", count=False, heap="2g")
     cases_p, nedges = path_cases(ctx, "MC_Fitch_sm_quick.cfg", 16 if q else 1)
+    # 2b. TLC: the pass functions with one shared taxon_state_sets_map; an up pass that narrows tips in place must be found
+    ctx.model("MC_Fitch", "AsNarrowed_Fitch.cfg", expect_violation="MapUnchanged", count=False, heap="2g")
+    cases_pp, npedges = ppath_cases(ctx, "MC_Fitch_pass_quick.cfg", 8 if q else 1)
     if not q:
         ctx.model("MC_Fitch", "MC_Fitch_sm_thorough.cfg", heap="3g", timeout=6 * 3600)
         ctx.model("MC_Fitch", "MC_Fitch_sm_thorough4.cfg", heap="3g", timeout=6 * 3600)
@@ -669,7 +851,13 @@ def run(ctx):
     for i in range(ntab):
         rnd.append({"kind": "random_table", "seed": ctx.seed * 1000003 + 500000 + i, "nleaves": 5 + (i % 5),
                     "basal_trifurcation": i % 3 == 2})
-    driven = ctx.drive(cases_t + cases_p + rnd, run_case, chunksize=64)
+    npass = 40 if q else 2000
+    for i in range(npass):
+        nl = 4 + (i % 6)
+        rnd.append({"kind": "passes", "seed": ctx.seed * 1000003 + 700000 + i, "nleaves": nl, "nops": 6 if nl >= 8 else 8})
+    ctx.extra["pass_model_transitions"] = npedges
+    ctx.extra["pass_model_transitions_replayed"] = len(cases_pp)
+    driven = ctx.drive(cases_t + cases_p + cases_pp + rnd, run_case, chunksize=64)
     nev = sum(len(evs) for _, evs in driven)
     # one judge JVM per slot of the pool (8 at a time): the batches of the quick tier are sized to fill one round
     ctx.judge("Trace_Fitch", driven, batch=(nev // 8 + 50) if q else 20000, heap="2g", timeout=3000 if q else 6 * 3600)
@@ -684,7 +872,9 @@ def run(ctx):
                 "trifurcating-seed form of the same unrooted tree; 0-2 extra matrix taxa that are not on the tree) for both gap "
                 "treatments x every weight vector over {0,1,2}, as Standard matrix and 1 in %d also embedded in Dna) + one real history per "
                 "transition of the dumped SpecS graph (%d transitions; those starting more than one step from an initial state: 1 in %d) + %d seeded random histories and %d random instances on trees with "
-                "5-9 leaves (re-rooting on edges and at nodes, rotation, pruning, extra matrix taxa); distinct_nontrivial = distinct (tree, taxa, matrix, gap treatment, weights, api[, cached leaf sets]) calls whose "
+                "5-9 leaves (re-rooting on edges and at nodes, rotation, pruning, extra matrix taxa, polymorphic and anonymous multistate codes) "
+                "+ the transitions of the SpecP graph and seeded random sequences of fitch_down_pass / fitch_up_pass sharing ONE taxon_state_sets_map "
+                "over 2-3 trees; distinct_nontrivial = distinct (tree, taxa, matrix, gap treatment, weights, api[, cached leaf sets]) calls whose "
                 "matrix has a column with at least two different symbols" % (ninputs, ml, 6 if q else 2, nedges, 16 if q else 1, nrand, ntab))
     ctx.exhaustive = True
     ctx.extra["exhaustive_domain"] = ("ordered bifurcating shapes x 1-character matrices over {0,1,2,{01},{02},{12},{012},gap,?} with 2..%d leaves "
